@@ -1,10 +1,12 @@
 package main
 
 import (
+	"bytes"
 	"fmt"
 	"math"
 	"net"
 	"strings"
+	"sync"
 	"time"
 
 	"github.com/pebbe/zmq4"
@@ -236,4 +238,80 @@ func genC14(r *Rng, tier string, o *Out) {
 		nb = 400
 	}
 	c14Wire(r, tier, o, nb)
+	nc := 6
+	if tier == "thorough" {
+		nc = 60
+	}
+	for i := 0; i < nc; i++ {
+		c14Concurrent(r, o)
+	}
+}
+
+// c14Concurrent: dastard runs the record publisher and the summary publisher as two goroutines that build
+// their messages at the same time (PublishData hands every batch to both).  Two goroutines call the two
+// real builders in tight loops on two different records; every result must equal what the same builder
+// returns for the same record when called alone (that value is judged by the ordinary cases).
+func c14Concurrent(r *Rng, o *Out) {
+	var v1, v2 dastard.VerifRecord
+	var l1, l2 string
+	for try := 0; ; try++ {
+		var cb1, cb2 []uint64
+		v1, cb1 = c14Record(r, "quick")
+		v2, cb2 = c14Record(r, "quick")
+		var ok1, ok2 bool
+		l1, ok1 = c14LineOK(v1, cb1)
+		l2, ok2 = c14LineOK(v2, cb2)
+		if ok1 && ok2 {
+			break
+		}
+		if try > 50 {
+			return
+		}
+	}
+	_, _ = l1, l2
+	wantR := dastard.VerifMessageRecords(v1)
+	wantS := dastard.VerifMessageSummaries(v2)
+	const iters = 20000
+	same := func(a, b [][]byte) bool {
+		if len(a) != len(b) {
+			return false
+		}
+		for i := range a {
+			if !bytes.Equal(a[i], b[i]) {
+				return false
+			}
+		}
+		return true
+	}
+	var badR, badS int
+	var wg sync.WaitGroup
+	wg.Add(2)
+	go func() {
+		defer wg.Done()
+		defer func() {
+			if recover() != nil {
+				badR += iters
+			}
+		}()
+		for i := 0; i < iters; i++ {
+			if !same(dastard.VerifMessageRecords(v1), wantR) {
+				badR++
+			}
+		}
+	}()
+	go func() {
+		defer wg.Done()
+		defer func() {
+			if recover() != nil {
+				badS += iters
+			}
+		}()
+		for i := 0; i < iters; i++ {
+			if !same(dastard.VerifMessageSummaries(v2), wantS) {
+				badS++
+			}
+		}
+	}()
+	wg.Wait()
+	o.Case("conc iters %d badrec %d badsum %d frame1 %d frame2 %d", iters, badR, badS, v1.TrigFrame, v2.TrigFrame)
 }
